@@ -138,8 +138,9 @@ class Timeline(object):
 
 
 def conventions_needed(values):
-    """['even'] when no value sits on a rounding tie, else both conventions."""
-    return ["even", "up"] if any(is_tie(v) for v in values) else ["even"]
+    """The statement's round(288/value) is the interpreter's round(): half-even at an exact tie (4.5 -> 4).  (The
+    round-half-up timeline is still built by the self-test, it is no longer an accepted reading.)"""
+    return ["even"]
 
 
 # ---------------------------------------------------------------------------------------
@@ -263,7 +264,7 @@ def selftest():
     assert ticks_of(20) == 14 and ticks_of(5) == 58 and ticks_of(7) == 41 and ticks_of(128) == 2
     assert is_tie(64) and ticks_of(64, "even") == 4 and ticks_of(64, "up") == 5
     assert is_tie(192) and ticks_of(192, "even") == 2 and ticks_of(192, "up") == 2
-    assert conventions_needed([4, 8]) == ["even"] and conventions_needed([4, 64]) == ["even", "up"]
+    assert conventions_needed([4, 8]) == ["even"] and conventions_needed([4, 64]) == ["even"]
     # middle C = 60, A-4 = 69 (440 Hz), lowest piano A-0 = 21, G-9 = 127 (MIDI 1.0 key numbers)
     assert midi_key("C", 4) == 60 and midi_key("A", 4) == 69 and midi_key("A", 0) == 21 and midi_key("G", 9) == 127
     assert midi_key("Cb", 4) == 59 and midi_key("B#", 3) == 60
